@@ -141,6 +141,22 @@ def check_local(case, ctx):
             ctx.le("geodetic2enu of a neighbour of the origin equals the closed-form local coordinates (m)", float(np.abs(out.value[0] - want).max()), 1e-7 + 1e-12 * float(np.linalg.norm(want)),
                    {"origin": [lat0, lon0, h0], "point": [la1, lo1, h1], "got": out.value[0], "want": want}, route=r)
             ctx.le("geodetic2enu = ecef2enu(geodetic2ecef(...)) for a neighbour of the origin (m)", float(np.abs(out.value[0] - out.value[1]).max()), 1e-7, {"point": [la1, lo1, h1]}, route=r)
+    # exact zeros (values that are "false" in Python): the origin seen from itself, a target at zero range in any direction, zero height, zero angles
+    r = "enu<->aer"
+    for deg in (True, False):
+        out = call(lambda: (np.asarray(f.enu2aer(0.0, 0.0, 0.0, deg=deg), float), np.asarray(f.aer2enu(float(ang % 360.0) if deg else float(np.radians(ang % 360.0)), 0.3, 0.0, deg=deg), float),
+                            np.asarray(f.aer2enu(0.0, 0.0, ne, deg=deg), float), np.asarray(f.aer2enu(0, 0, 0, deg=deg), float)))
+        if ctx.returned(out, clause="no-exception[zero range / zero angles]", route=r):
+            aer0, e0, north, e00 = out.value
+            ctx.le("the origin seen from itself is at slant range 0, and a target at range 0 is the origin whatever the direction", max(abs(aer0[2]), np.abs(e0).max(), np.abs(e00).max()), 0.0,
+                   {"enu2aer(0,0,0)": aer0, "aer2enu(az, el, 0)": e0, "deg": deg}, route=r)
+            ctx.le("azimuth 0 and elevation 0 point north", np.abs(north - np.array([0.0, ne, 0.0])).max(), 1e-12 * ne, {"got": north, "deg": deg}, route=r)
+    r = "ecef<->enu"
+    out = call(lambda: (np.asarray(f.enu2ecef(0.0, 0.0, 0.0, lat0, lon0, h0), float), np.asarray(f.geodetic2ecef(lat0, lon0, h0), float),
+                        np.asarray(f.ecef2enuv(0.0, 0.0, 0.0, 0.0, 0.0, 0.0, lat0, lon0), float), np.asarray(f.enu2uvw(0.0, 0.0, 0.0, lat0, lon0), float)))
+    if ctx.returned(out, clause="no-exception[zero offset]", route=r):
+        ctx.le("the zero ENU offset is the origin itself (ECEF, m)", np.abs(out.value[0] - out.value[1]).max(), 1e-8, route=r)
+        ctx.le("the zero vector rotates to the zero vector", max(np.abs(out.value[2]).max(), np.abs(out.value[3]).max()), 0.0, route=r)
     r = "enu<->aer"
     for deg in (True, False):
         out = call(lambda: f.enu2aer(*enu, deg=deg))
